@@ -44,16 +44,12 @@ theorem missingRows_all_found (b : Build) (rows : List Row)
     rw [hf] at this
     exact frag_mem_fragmentsOf rows f this
 
-/-- no two consecutive gap rows -/
-def NoDoubleGap (rows : List Row) : Prop :=
-  ∀ i g g', rows[i]? = some (.gap g) → rows[i + 1]? = some (.gap g') → False
-
-/-- loop invariant of `missingRows` on a scaffold none of whose contigs is registered -/
+/-- loop invariant of `missingRows` on a scaffold none of whose contigs is registered: the last contig written is row
+    `l`, everything up to it has been written, and only gap rows have been seen since -/
 def MissInv (rows : List Row) (k : Nat) (st : List Row × Option Nat × Option Nat) : Prop :=
   (k = 0 ∧ st = ([], none, none)) ∨
-  (0 < k ∧ st.2.2 = some 0 ∧
-    ((∃ f, rows[k - 1]? = some (.frag f) ∧ st.1 = rows.take k ∧ st.2.1 = some (k - 1)) ∨
-     (∃ g, rows[k - 1]? = some (.gap g) ∧ 2 ≤ k ∧ st.1 = rows.take (k - 1) ∧ st.2.1 = some (k - 2))))
+  (∃ l, l < k ∧ st.2.2 = some 0 ∧ st.2.1 = some l ∧ st.1 = rows.take (l + 1) ∧
+    ∀ j, l < j → j < k → ∃ g, rows[j]? = some (.gap g))
 
 theorem zip_range_take_succ (rows : List Row) (k : Nat) (hk : k < rows.length) :
     ((List.range rows.length).zip rows).take (k + 1) = ((List.range rows.length).zip rows).take k ++ [(k, rows[k])] := by
@@ -61,8 +57,27 @@ theorem zip_range_take_succ (rows : List Row) (k : Nat) (hk : k < rows.length) :
   rw [List.take_succ_eq_append_getElem hl]
   simp
 
+theorem all_isGap_between (rows : List Row) (l k : Nat) (hk : k ≤ rows.length)
+    (h : ∀ j, l < j → j < k → ∃ g, rows[j]? = some (.gap g)) :
+    ((rows.drop (l + 1)).take (k - (l + 1))).all Row.isGap = true := by
+  rw [List.all_eq_true]
+  intro x hx
+  obtain ⟨t, ht, rfl⟩ := List.mem_iff_getElem.1 hx
+  simp only [List.length_take, List.length_drop] at ht
+  simp only [List.getElem_take, List.getElem_drop]
+  obtain ⟨g, hg⟩ := h (l + 1 + t) (by omega) (by omega)
+  have hlt : l + 1 + t < rows.length := by omega
+  rw [List.getElem?_eq_getElem hlt] at hg
+  have : rows[l + 1 + t] = .gap g := by simpa using hg
+  rw [this]; rfl
+
+theorem take_between (rows : List Row) (l k : Nat) (hlk : l + 1 ≤ k) :
+    rows.take (l + 1) ++ (rows.drop (l + 1)).take (k - (l + 1)) = rows.take k := by
+  have e : k = (l + 1) + (k - (l + 1)) := by omega
+  conv => rhs; rw [e, List.take_add]
+
 theorem missInv_step (b : Build) (rows : List Row) (k : Nat) (hk : k < rows.length)
-    (hhead : ∃ f, rows[0]? = some (.frag f)) (hnd : NoDoubleGap rows)
+    (hhead : ∃ f, rows[0]? = some (.frag f))
     (hnone : ∀ f ∈ fragmentsOf rows, dHas b.found f.keyTuple = false)
     (st) (hinv : MissInv rows k st) :
     ∃ st', missStep b rows st (k, rows[k]) = .ok st' ∧ MissInv rows (k + 1) st' := by
@@ -75,57 +90,44 @@ theorem missInv_step (b : Build) (rows : List Row) (k : Nat) (hk : k < rows.leng
   cases hrow : rows[k] with
   | gap g =>
     refine ⟨(out, la, fi), missStep_gap b rows _ k g, ?_⟩
-    rcases hinv with ⟨rfl, -⟩ | ⟨hk0, hfi, hcase⟩
+    rcases hinv with ⟨rfl, -⟩ | ⟨l, hl, hfi, hla, ho, hgaps⟩
     · obtain ⟨f, hf⟩ := hhead
       rw [hgetk, hrow] at hf; cases hf
     · right
-      refine ⟨by omega, hfi, Or.inr ⟨g, ?_, by omega, ?_⟩⟩
-      · simp [hgetk, hrow]
-      · rcases hcase with ⟨f, hf, ho, hl⟩ | ⟨g', hg', _, _, _⟩
-        · exact ⟨by simpa using ho, by simpa using hl⟩
-        · exfalso
-          have e : k - 1 + 1 = k := by omega
-          exact hnd (k - 1) g' g hg' (by rw [e, hgetk, hrow])
+      refine ⟨l, by omega, hfi, hla, ho, ?_⟩
+      intro j h1 h2
+      by_cases hj : j = k
+      · subst hj; exact ⟨g, by rw [hgetk, hrow]⟩
+      · exact hgaps j h1 (by omega)
   | frag f =>
     have hmiss := missStep_missing b rows out la fi k f (hnone f (hfragmem f hrow))
-    rcases hinv with ⟨rfl, hst⟩ | ⟨hk0, hfi, hcase⟩
+    rcases hinv with ⟨rfl, hst⟩ | ⟨l, hl, hfi, hla, ho, hgaps⟩
     · simp only [Prod.mk.injEq] at hst
       obtain ⟨rfl, rfl, rfl⟩ := hst
       refine ⟨_, by rw [hmiss]; rfl, ?_⟩
       right
-      refine ⟨by omega, rfl, Or.inl ⟨f, by simp [hgetk, hrow], ?_, rfl⟩⟩
+      refine ⟨0, by omega, rfl, rfl, ?_, fun j h1 h2 => by omega⟩
       simp [htake, hrow]
-    · simp only at hfi
-      subst hfi
-      rcases hcase with ⟨f', hf', ho, hl⟩ | ⟨g', hg', hk2, ho, hl⟩
-      · simp only at ho hl
-        subst ho hl
-        have hsep : sepBefore b rows (some (k - 1)) k = .ok [] := by simp [sepBefore]
+    · simp only at hfi hla ho
+      subst hfi hla ho
+      by_cases hlk : l = k - 1
+      · have hsep : sepBefore b rows (some l) k = .ok [] := by simp [sepBefore, hlk]
         refine ⟨_, by rw [hmiss, hsep]; rfl, ?_⟩
         right
-        refine ⟨by omega, rfl, Or.inl ⟨f, by simp [hgetk, hrow], ?_, rfl⟩⟩
-        simp [htake, hrow]
-      · simp only at ho hl
-        subst ho hl
-        have hsep : sepBefore b rows (some (k - 2)) k = .ok [.gap g'] := by
-          have : ¬ (k - 2 = k - 1) := by omega
-          simp [sepBefore, this, hg']
+        refine ⟨k, by omega, rfl, rfl, ?_, fun j h1 h2 => by omega⟩
+        have e : l + 1 = k := by omega
+        simp [htake, hrow, e]
+      · have hall := all_isGap_between rows l k (by omega) hgaps
+        have hsep : sepBefore b rows (some l) k = .ok ((rows.drop (l + 1)).take (k - (l + 1))) := by
+          simp only [sepBefore, hlk, if_false, hall, if_true]
         refine ⟨_, by rw [hmiss, hsep]; rfl, ?_⟩
         right
-        refine ⟨by omega, rfl, Or.inl ⟨f, by simp [hgetk, hrow], ?_, rfl⟩⟩
-        have e : k - 1 + 1 = k := by omega
-        have hk1 : k - 1 < rows.length := by omega
-        have h1 : rows.take k = rows.take (k - 1) ++ [.gap g'] := by
-          have := List.take_succ_eq_append_getElem hk1
-          rw [e] at this
-          rw [this]
-          have : rows[k - 1] = .gap g' := by
-            rw [List.getElem?_eq_getElem hk1] at hg'; simpa using hg'
-          rw [this]
-        simp [htake, hrow, h1]
+        refine ⟨k, by omega, rfl, rfl, ?_, fun j h1 h2 => by omega⟩
+        show rows.take (l + 1) ++ (rows.drop (l + 1)).take (k - (l + 1)) ++ [Row.frag f] = rows.take (k + 1)
+        rw [take_between rows l k (by omega), htake, hrow]
 
 theorem missInv_fold (b : Build) (rows : List Row)
-    (hhead : ∃ f, rows[0]? = some (.frag f)) (hnd : NoDoubleGap rows)
+    (hhead : ∃ f, rows[0]? = some (.frag f))
     (hnone : ∀ f ∈ fragmentsOf rows, dHas b.found f.keyTuple = false) (k : Nat) (hk : k ≤ rows.length) :
     ∃ st, (((List.range rows.length).zip rows).take k).foldlM (missStep b rows) ([], none, none) = .ok st ∧
       MissInv rows k st := by
@@ -133,37 +135,39 @@ theorem missInv_fold (b : Build) (rows : List Row)
   | zero => exact ⟨_, rfl, Or.inl ⟨rfl, rfl⟩⟩
   | succ k ih =>
     obtain ⟨st, hst, hinv⟩ := ih (by omega)
-    obtain ⟨st', hs', hinv'⟩ := missInv_step b rows k (by omega) hhead hnd hnone st hinv
+    obtain ⟨st', hs', hinv'⟩ := missInv_step b rows k (by omega) hhead hnone st hinv
     refine ⟨st', ?_, hinv'⟩
     rw [zip_range_take_succ rows k (by omega), List.foldlM_append, hst]
     simp only [bind, Except.bind, List.foldlM_cons, List.foldlM_nil, hs']
     rfl
 
-/-- a scaffold that begins and ends with a contig, has no two consecutive gap rows and none of whose contigs is
-    registered is left over WHOLE, its first left-over contig being row 0 -/
+/-- a scaffold that begins and ends with a contig and none of whose contigs is registered is left over WHOLE — with every
+    gap row, also consecutive ones (since fix 43566b8) — its first left-over contig being row 0 -/
 theorem missingRows_none_found (b : Build) (rows : List Row) (hne : rows ≠ [])
     (hhead : ∃ f, rows.head? = some (.frag f)) (hlast : ∃ f, rows.getLast? = some (.frag f))
-    (hnd : NoDoubleGap rows) (hnone : ∀ f ∈ fragmentsOf rows, dHas b.found f.keyTuple = false) :
+    (hnone : ∀ f ∈ fragmentsOf rows, dHas b.found f.keyTuple = false) :
     missingRows b rows = .ok (rows, some 0) := by
   have hhead' : ∃ f, rows[0]? = some (.frag f) := by
     obtain ⟨f, hf⟩ := hhead; exact ⟨f, by rw [← List.head?_eq_getElem?]; exact hf⟩
-  obtain ⟨st, hst, hinv⟩ := missInv_fold b rows hhead' hnd hnone rows.length (Nat.le_refl _)
+  obtain ⟨st, hst, hinv⟩ := missInv_fold b rows hhead' hnone rows.length (Nat.le_refl _)
   have hlen : ((List.range rows.length).zip rows).length = rows.length := by simp
   rw [List.take_of_length_le (by omega)] at hst
   rw [missingRows_eq, hst]
   have hpos : 0 < rows.length := by cases rows <;> simp_all
-  rcases hinv with ⟨h0, -⟩ | ⟨_, hfi, hcase⟩
+  rcases hinv with ⟨h0, -⟩ | ⟨l, hl, hfi, hla, ho, hgaps⟩
   · omega
   · obtain ⟨out, la, fi⟩ := st
-    simp only at hfi
-    subst hfi
-    rcases hcase with ⟨f, _, ho, _⟩ | ⟨g, hg, _, _, _⟩
-    · simp only at ho
-      subst ho
-      simp [bind, Except.bind, pure, Except.pure]
-    · obtain ⟨f, hf⟩ := hlast
-      rw [List.getLast?_eq_getElem?, hg] at hf
-      cases hf
+    simp only at hfi hla ho
+    subst hfi hla ho
+    have hl1 : l = rows.length - 1 := by
+      by_cases h : l = rows.length - 1
+      · exact h
+      · obtain ⟨g, hg⟩ := hgaps (rows.length - 1) (by omega) (by omega)
+        obtain ⟨f, hf⟩ := hlast
+        rw [List.getLast?_eq_getElem?, hg] at hf
+        cases hf
+    have e : l + 1 = rows.length := by omega
+    simp [bind, Except.bind, pure, Except.pure, e]
 
 /-! ### `add_missing` -/
 
@@ -186,7 +190,6 @@ structure AbsentOk (sc : Scaffold) : Prop where
   ne : sc.rows ≠ []
   headFrag : ∃ f, sc.rows.head? = some (.frag f)
   lastFrag : ∃ f, sc.rows.getLast? = some (.frag f)
-  noDoubleGap : NoDoubleGap sc.rows
   untagged : sc.fragmentTags = []
   noHap : ∀ f, sc.rows.head? = some (.frag f) → hapPrefixOfName f.name = none
 
@@ -210,7 +213,7 @@ theorem amStep_absent (b : Build) (sc : Scaffold) (hplain : NamerPlain b.namer) 
     | cons a r => rw [hr] at hf0; simp at hf0; exact ⟨r, by rw [hf0]⟩
   refine ⟨namedPlain b.namer f0.name, namedPlain_plain hplain _, rfl, ?_⟩
   unfold amStep
-  rw [missingRows_none_found b sc.rows hab.ne hab.headFrag hab.lastFrag hab.noDoubleGap h]
+  rw [missingRows_none_found b sc.rows hab.ne hab.headFrag hab.lastFrag h]
   have hemp : sc.rows.isEmpty = false := by rw [hrows]; rfl
   have htags : ({ name := sc.name, rows := sc.rows } : Scaffold).fragmentTags = [] := hab.untagged
   have hname : makeScaffoldName b.namer sc.name sc.rows [] = .ok (namedPlain b.namer f0.name) :=
